@@ -31,7 +31,6 @@ from common import Run, main, REPO
 
 import glob
 import io
-import json
 import math
 import multiprocessing
 import random
